@@ -185,7 +185,7 @@ func CheckC16(tier string) int {
 	// ---- part 1: every state of the packet / token graphs up to a depth, each chain exported and re-imported
 	depth := 4
 	if tier == "thorough" {
-		depth = 6
+		depth = 7
 	}
 	stateCheck := func(m *PktModel, w *world.World, st PState) []explore.Finding {
 		mu.Lock()
